@@ -252,8 +252,22 @@ def block_aligned_geometries(counting=False):
                     mk = refimpl.bloom_sizing_simple(n, rate)
                     if mk and (mk[0] if counting else (mk[0] + 7) // 8) % 512 == 0:
                         out.append((n, rate, mk[0], mk[1]))
+            # a few much larger ones, found directly: lengths that are exact multiples of 64 KiB
+            for length in (65536, 131072, 196608, 262144) if not counting else (65536,):
+                hi = length * (1 if counting else 8)
+                for n in range(int((hi - 8) / c) - 1, int(hi / c) + 2):
+                    mk = refimpl.bloom_sizing_simple(n, rate) if n > 0 else None
+                    if mk and (mk[0] if counting else (mk[0] + 7) // 8) == length:
+                        out.append((n, rate, mk[0], mk[1]))
         _ALIGNED[counting] = out
     return _ALIGNED[counting]
+
+
+def aligned_geometry(rng, counting=False, max_len=None):
+    """one block-aligned geometry; two thirds of the draws have a length that is an exact multiple of 4096"""
+    g = [x for x in block_aligned_geometries(counting) if max_len is None or (x[2] if counting else (x[2] + 7) // 8) <= max_len]
+    big = [x for x in g if (x[2] if counting else (x[2] + 7) // 8) % 4096 == 0]
+    return rng.choice(big if big and rng.random() < 0.66 else g)
 
 
 def bloom_geometry(rng, small=True, max_bits=60000):
